@@ -54,14 +54,14 @@ structure pluginPrimitiveSigner where
   /-- `s.plugin.GenerateSignature(ctx, req)`: a response or an error -/
   generate : plugin.GenerateSignatureRequest → Option plugin.GenerateSignatureResponse × Option GoLite.Err
   /-- `parseCertChain(ders)` -/
-  parse : List Bytes → Option (List Cert) × Option GoLite.Err
+  parse : List Bytes → List Cert × Option GoLite.Err
 
 def pluginPrimitiveSigner.GenerateSignature (s : pluginPrimitiveSigner) (_ctx : Unit)
     (req : plugin.GenerateSignatureRequest) : Option plugin.GenerateSignatureResponse × Option GoLite.Err :=
   s.generate req
 
 def pluginPrimitiveSigner.parseCertChain (s : pluginPrimitiveSigner) (ders : List Bytes) :
-    Option (List Cert) × Option GoLite.Err := s.parse ders
+    List Cert × Option GoLite.Err := s.parse ders
 
 end c18d
 end NotationModel.Src
